@@ -241,6 +241,30 @@ def check(ctx):
         else:
             need("not-expired", lambda e: fresh_atom(e) == lab, lab, "timestamp + auth_cookie_expiry >= now")
 
+    # the timestamp written at issue and the clock it is compared with use the same unit
+    issue_units, check_units = set(), set()
+    for b in body.blocks:
+        if b.cleanup:
+            continue
+        for i, s2 in enumerate(b.stmts):
+            if s2.kind == "assign" and s2.rv.k == "agg" and s2.rv.j.get("adt", "").endswith("cookie::AuthCookie") and not body.is_noise(s2):
+                e2 = an.rvalue_expr(s2.rv, (b.idx, i), 0)
+                ts = dict(e2[2]).get("timestamp")
+                if ts is not None:
+                    for c in deep_calls(ctx.prog, ts, ""):
+                        n = flow.short(c[1][1]).split("::")[-1]
+                        if n.startswith(("as_secs", "as_millis", "as_micros", "as_nanos", "subsec")):
+                            issue_units.add(n)
+    for bb, e, ls, lab in fm:
+        for c in deep_calls(ctx.prog, e, ""):
+            n = flow.short(c[1][1]).split("::")[-1]
+            if n.startswith(("as_secs", "as_millis", "as_micros", "as_nanos", "subsec")):
+                check_units.add(n)
+    if fm:
+        ctx.check(issue_units == check_units and len(check_units) == 1, RG, "C02/accept-guards/timestamp-unit-agrees", acc_site,
+                  reason="the cookie timestamp is written with %s but the expiry test reads the clock with %s: with different units `timestamp + expiry >= now` no longer means what the configured expiry says"
+                         % (sorted(issue_units), sorted(check_units)),
+                  detail="issue and check both use %s" % sorted(check_units))
     # every other way out of the guard complex leaves the flag true: covered by single accept point.
 
     # ---- C02/identity-from-cookie
